@@ -30,8 +30,8 @@ def instants_of(tr: list, lo: float = 0.0) -> list:
 
 
 class EnumFamily(ScenarioFamily):
-    def __init__(self, name, props, make_base, derive, n_quick, n_thorough, cap_quick=40, cap_thorough=400):
-        super().__init__(name, props, make_base, n_quick, n_thorough)
+    def __init__(self, name, props, make_base, derive, n_quick, n_thorough, cap_quick=40, cap_thorough=400, workdir=False):
+        super().__init__(name, props, make_base, n_quick, n_thorough, workdir=workdir)
         self.derive = derive
         self.cap = {'quick': cap_quick, 'thorough': cap_thorough}
 
